@@ -1131,6 +1131,14 @@ class PartialReduce(ArrayExpr):
 
     def _accept_slice(self, slice_expr):
         """Accept a slice being pushed through this PartialReduce."""
+        from dask_array._blockwise import FusedBlockwise
+
+        if isinstance(self.array, FusedBlockwise):
+            # A fused group accepts no slice, so the slice would stay on top of
+            # it as a getitem task over the partials -- which need not be arrays
+            # (mean/var/arg partials are dicts).  Only reachable when a lowered
+            # tree is simplified again, e.g. an operation on ``x.optimize()``.
+            return None
         reduced_axes = set(self.split_every.keys())
 
         def make_result(sliced_input, input_index):
